@@ -194,6 +194,57 @@ theorem skipped_overlay_leaves_no_trace (ev : Env → ε → JVal) (env : Env) (
   rw [materialise_is_fold ev env template forced _ h hf, materialise_is_fold ev env template forced _ h' hf]
   simp [active, List.filter_append, hs]
 
+/-! ### an overlay may vanish only when its `skipIf` is `true` -/
+
+/-- the model with the PermFail exit agrees with the success-path model exactly when every
+    `skipIf` is a boolean … -/
+theorem materialiseE_of_decided (ev : Env → ε → JVal) (env : Env) (template forced : Fields)
+    (steps : List (Step ε)) (h : ∀ s ∈ steps, skipDecision ev env s ≠ none) :
+    materialiseE ev env template forced steps = some (materialise ev env template forced steps) := by
+  simp only [materialiseE, materialise]
+  split
+  · rfl
+  · rw [overlaysLoopE_decided ev env steps h]; rfl
+
+/-- … and a single `skipIf` that fails to evaluate or is not a boolean means **no target at all**
+    (the step is neither skipped nor applied; nothing is created from the remaining overlays) -/
+theorem unevaluable_skipIf_gives_no_target (ev : Env → ε → JVal) (env : Env) (template forced : Fields)
+    (steps : List (Step ε)) (h : ∃ s ∈ steps, skipDecision ev env s = none) :
+    materialiseE ev env template forced steps = none := by
+  simp only [materialiseE]
+  have hne : steps.isEmpty = false := by
+    obtain ⟨s, hm, _⟩ := h
+    cases steps with
+    | nil => simp at hm
+    | cons _ _ => rfl
+  simp only [hne, Bool.false_eq_true, if_false]
+  rw [overlaysLoopE_undecided ev env steps h]; rfl
+
+/-- whenever a target exists, every listed overlay is either skipped because its `skipIf` is
+    `true`, or is among the overlays merged into the target; and the target is the ordered fold -/
+theorem no_overlay_vanishes (ev : Env → ε → JVal) (env : Env) (template forced : Fields)
+    (steps : List (Step ε)) (t : Fields) (hw : ∀ s ∈ steps, WFO s.spec) (hf : HDO forced)
+    (h : materialiseE ev env template forced steps = some t) :
+    (∀ s ∈ steps, skipDecision ev env s = some true ∨ s ∈ active ev env steps) ∧
+    t = deepOverlay ((active ev env steps).foldl (mergeStep ev env) (deepOverlay template forced)) forced := by
+  have hd : ∀ s ∈ steps, skipDecision ev env s ≠ none := by
+    intro s hm hn
+    rw [unevaluable_skipIf_gives_no_target ev env template forced steps ⟨s, hm, hn⟩] at h
+    cases h
+  constructor
+  · intro s hm
+    cases hdec : skipDecision ev env s with
+    | none => exact absurd hdec (hd s hm)
+    | some b =>
+      cases b
+      · right
+        have := skipped_eq_of_decision ev env s false hdec
+        simp [active, hm, this]
+      · left; rfl
+  · rw [materialiseE_of_decided ev env template forced steps hd] at h
+    injection h with h
+    rw [← h, materialise_is_fold ev env template forced steps hw hf]
+
 /-- the created object's view: optional `create.overlay` deep-merged over the target, forced
     overlay on top -/
 theorem create_view_is_merge (ev : Env → ε → JVal) (env : Env) (target forced : Fields)
@@ -311,6 +362,10 @@ example : materialise exEv exRfEnv [("data", .obj [("k", .str "v")])] exForced e
      ("apiVersion", .str "v1"), ("kind", .str "ConfigMap"),
      ("metadata", .obj [("name", .str "cm"), ("namespace", .str "ns"), ("labels", .obj [("a", .int 1)])])] := by
   rfl
+-- a `skipIf` that reads an absent input (the oracle answers a non-boolean): no target
+example : materialiseE exEv exRfEnv [] exForced
+    (exSteps ++ [.inline (some (.str "=inputs.absent")) (OSpec.ofFields [("a", .int 1)])]) = none := by rfl
+example : (materialiseE exEv exRfEnv [("data", .obj [("k", .str "v")])] exForced exSteps).isSome = true := by rfl
 -- … and the hypotheses of `skipped_overlay_leaves_no_trace` are met by the second step
 example : skipped exEv exRfEnv (exSteps[1]) = true := by rfl
 example : active exEv exRfEnv exSteps = [exSteps[0], exSteps[2]] := by rfl
